@@ -93,9 +93,17 @@ class StepBudget(Base):
     def _over(self, what, count, limit):
         raise BudgetExceeded(what, count, limit)
 
+    cut_after_passes = None  # workload cap for partial runs on large models: not a verdict (reported as 'cut-off')
+
     def alg_enter(self, idx, args, inner):
+        from framework import progress
+
+        progress.touch()  # the case is alive: passes keep coming (the stall watchdog looks at this file's mtime)
         if not inner:
             self.outer_algs += 1
+            if self.cut_after_passes is not None and self.outer_algs > self.cut_after_passes:
+                raise BudgetExceeded("cut-off: workload cap on passes of a partial run", self.outer_algs,
+                                     self.cut_after_passes)
             self.probes_in_alg = 0
             self.inner_bc_in_alg = 0
             lim = self.scale * (2 * (1 + self.choices + self.bt_search) + 8)
